@@ -211,6 +211,15 @@ example :
     exCC.compose s.items = 3 ∧ (s.streams.map (·.out)) = [[(90, "a"), (115, "a"), (81, "a"), (3, "a")], [(115, "b"), (81, "b"), (3, "b")]] := by
   decide
 
+/-- every item write publishes an event, also one that leaves the item as it is: an updates-only stream that has
+not sent anything yet answers it with the composition at that moment. An Update whose FIRST write changes nothing
+(a preset whose first position is already in place) therefore shows such a stream the value from BEFORE the Update
+(90) ahead of the response (91) — why the harness counts Updates whose items the server derives as multi-item writes -/
+example :
+    let s := crun exCC true ⟨exItems, []⟩ [.pull "b" none true, .update "x" [(0, 10), (1, 81)] true]
+    (s.streams.map (·.out)) = [[(90, "b"), (91, "b")]] := by
+  decide
+
 /-- **C14_composite_unseeded_update_on_streams_fails.** With the opposite seeding choice (updates_only
 passed down to the collection subscription, seeded change C14-7) the single-item statement is false:
 an updates-only stream opened on a collection of two items reports, after a single-item Update with
